@@ -50,18 +50,19 @@ type podSpec struct {
 }
 
 type op struct {
-	Kind string   `json:"kind"` // add | update | delete | peek | chan
+	Kind string   `json:"kind"` // add | update | delete | peek | chan; stream async: ix-add | ix-update | ix-delete | handle | begin | finish
 	Pod  *podSpec `json:"pod,omitempty"`
 	Old  *podSpec `json:"old,omitempty"`
 	IP   string   `json:"ip,omitempty"`
 	Tomb bool     `json:"tomb,omitempty"` // delete delivered as cache.DeletedFinalStateUnknown
+	T    int      `json:"t,omitempty"`    // stream async: lookup id of begin / finish
 }
 
 type input struct {
 	LabRe  *string `json:"lab_re"` // nil = nil regex (label matching disabled)
 	AnnRe  *string `json:"ann_re"`
 	Ops    []op    `json:"ops"`
-	Stream string  `json:"stream"` // unique | shared | offcontract
+	Stream string  `json:"stream"` // unique | shared | offcontract | async
 }
 
 func (p *podSpec) key() string {
@@ -193,6 +194,9 @@ var quiet = func() *logrus.Logger {
 }()
 
 func runCase(in input) hlib.Case {
+	if in.Stream == "async" {
+		return runAsync(in)
+	}
 	c := hlib.Case{Input: in}
 	labRe, annRe := compile(in.LabRe), compile(in.AnnRe)
 	labKeys, annKeys := map[string]bool{}, map[string]bool{}
@@ -364,7 +368,7 @@ func runCase(in input) hlib.Case {
 	}
 
 	c.Obs = map[string]interface{}{"answers": answers}
-	c.Coq = hlib.App("KC", coqTable(labRe, labKeys), coqTable(annRe, annKeys), hlib.List(evs))
+	c.Coq = hlib.App("KC", coqTable(labRe, labKeys), coqTable(annRe, annKeys), hlib.List(evs), "[]")
 	shape := "allnil"
 	if nonNil > 0 {
 		shape = "static"
@@ -375,6 +379,299 @@ func runCase(in input) hlib.Case {
 	c.Class = in.Stream + "/" + shape
 	c.Nontrivial = changed && nonNil > 0
 	return c
+}
+
+// ------------------------------------------------------------------------------------------
+// stream async: the finer atomic steps of Model/K8sAsync.v on the real provider
+//
+//   ix-add / ix-update / ix-delete   the informer's half of a delivery: the indexer changes, the
+//                                    handler call is queued (FIFO)
+//   handle                           the listener's half: the oldest queued handler call runs
+//   begin t ip                       lookup t starts (Peek in its own goroutine): reads the memo; on
+//                                    a miss it reads the index and is parked inside the
+//                                    AfterByIndex hook, i.e. before it writes the memo
+//   finish t                         lookup t is released: writes the memo and returns
+//
+// The memo read and the index read of one lookup cannot be separated from outside (no hook point
+// between them), so they are always adjacent here.  Ops that are not enabled (handle with nothing
+// queued, begin of a pending id, finish of an unknown id) are skipped, so every op list is a
+// schedule (needed for shrinking); lookups still parked at the end are released in id order.
+// A stale answer is NOT a monitor hit in this stream: C13 does not quantify over schedules; the
+// stream checks that implementation and model agree on them, stale answers included.
+
+type parked struct {
+	ip      string
+	release chan struct{}
+	done    chan *gostatsd.Instance
+}
+
+func coqAnswer(inst *gostatsd.Instance) (string, answer) {
+	a := answer{Nil: inst == nil}
+	if inst == nil {
+		return "None", a
+	}
+	a.ID = string(inst.ID)
+	a.Tags = append([]string{}, inst.Tags...)
+	sort.Strings(a.Tags)
+	return hlib.Option(hlib.Pair(hlib.Bytes(a.ID), hlib.StrList(a.Tags)), true), a
+}
+
+func runAsync(in input) hlib.Case {
+	c := hlib.Case{Input: in}
+	labRe, annRe := compile(in.LabRe), compile(in.AnnRe)
+	labKeys, annKeys := map[string]bool{}, map[string]bool{}
+	for i := range in.Ops {
+		for _, p := range []*podSpec{in.Ops[i].Pod, in.Ops[i].Old} {
+			if p == nil {
+				continue
+			}
+			for _, e := range p.Labels {
+				labKeys[e.K] = true
+			}
+			for _, e := range p.Annots {
+				annKeys[e.K] = true
+			}
+		}
+	}
+	vp, err := k8s.VerifNewProvider(quiet, annRe, labRe)
+	if err != nil {
+		fmt.Fprintln(os.Stderr, "VerifNewProvider:", err)
+		os.Exit(3)
+	}
+	indexer := vp.VerifIndexer()
+	monitor := func(f string, a ...interface{}) { c.Monitors = append(c.Monitors, fmt.Sprintf(f, a...)) }
+
+	var aevs []string
+	var answers []answer
+	var queue []func()
+	pend := map[int]*parked{}
+	mirror := map[string]*podSpec{}
+	panics := make(chan string, 8)
+	overlap, stale, settledStale, nonNil := false, false, false, 0
+	inFlight := func() bool { return len(pend) > 0 }
+	wedged := false
+
+	record := func(t int, ip string, via string, inst *gostatsd.Instance, ctor string) {
+		coq, a := coqAnswer(inst)
+		a.IP, a.Via = ip, via
+		answers = append(answers, a)
+		aevs = append(aevs, hlib.App(ctor, hlib.N(uint64(t)), coq))
+		if inst != nil {
+			nonNil++
+			held := false
+			for _, p := range mirror {
+				held = held || (p.serving() && p.IP == ip && p.NS+"/"+p.Name == a.ID)
+			}
+			stale = stale || !held
+			// served from the memo with nothing queued and nothing in flight: no pending step will repair it
+			settledStale = settledStale || (!held && via == "hit" && len(queue) == 0 && len(pend) == 0)
+		}
+	}
+	finish := func(i, t int) {
+		pl := pend[t]
+		close(pl.release)
+		select {
+		case inst := <-pl.done:
+			delete(pend, t)
+			record(t, pl.ip, "finish", inst, "AWriteMemo")
+		case m := <-panics:
+			monitor("op %d: lookup %d panicked after its index read: %s", i, t, m)
+			wedged = true
+		case <-time.After(10 * time.Second):
+			monitor("op %d: lookup %d did not return within 10s of its release", i, t)
+			wedged = true
+		}
+	}
+
+	for i, o := range in.Ops {
+		o := o
+		if wedged {
+			break
+		}
+		msg := hlib.Recover(func() {
+			switch o.Kind {
+			case "ix-add", "ix-update":
+				obj := o.Pod.object()
+				if o.Kind == "ix-add" {
+					if err := indexer.Add(obj); err != nil {
+						monitor("op %d: indexer.Add: %v", i, err)
+					}
+					queue = append(queue, func() { vp.VerifOnAdd(obj) })
+					aevs = append(aevs, hlib.App("AIndexUpdate", hlib.App("DAdd", coqPod(o.Pod))))
+				} else {
+					if err := indexer.Update(obj); err != nil {
+						monitor("op %d: indexer.Update: %v", i, err)
+					}
+					old := o.Old.object()
+					queue = append(queue, func() { vp.VerifOnUpdate(old, obj) })
+					aevs = append(aevs, hlib.App("AIndexUpdate", hlib.App("DUpdate", coqPod(o.Old), coqPod(o.Pod))))
+				}
+				mirror[o.Pod.key()] = o.Pod
+				overlap = overlap || inFlight()
+			case "ix-delete":
+				var obj interface{} = o.Pod.object()
+				if o.Tomb {
+					obj = cache.DeletedFinalStateUnknown{Key: o.Pod.key(), Obj: obj}
+				}
+				if err := indexer.Delete(obj); err != nil {
+					monitor("op %d: indexer.Delete: %v", i, err)
+				}
+				queue = append(queue, func() { vp.VerifOnDelete(obj) })
+				aevs = append(aevs, hlib.App("AIndexUpdate", hlib.App("DDelete", coqPod(o.Pod))))
+				delete(mirror, o.Pod.key())
+				overlap = overlap || inFlight()
+			case "handle":
+				if len(queue) == 0 {
+					return
+				}
+				h := queue[0]
+				queue = queue[1:]
+				h()
+				aevs = append(aevs, "AHandlerCall")
+				overlap = overlap || inFlight()
+			case "begin":
+				if _, busy := pend[o.T]; busy || o.T < 0 {
+					return
+				}
+				pl := &parked{ip: o.IP, release: make(chan struct{}), done: make(chan *gostatsd.Instance, 1)}
+				reached := make(chan struct{})
+				vp.AfterByIndex = func() {
+					close(reached)
+					<-pl.release
+				}
+				go func() {
+					defer func() {
+						if r := recover(); r != nil {
+							panics <- fmt.Sprint(r)
+						}
+					}()
+					inst, _ := vp.P.Peek(gostatsd.Source(o.IP))
+					pl.done <- inst
+				}()
+				aevs = append(aevs, hlib.App("AReadMemo", hlib.N(uint64(o.T)), hlib.Bytes(o.IP)))
+				select {
+				case <-reached: // memo miss, index read, parked before the memo write
+					vp.AfterByIndex = nil
+					pend[o.T] = pl
+					aevs = append(aevs, hlib.App("AReadIndex", hlib.N(uint64(o.T))))
+				case inst := <-pl.done: // served from the memo
+					vp.AfterByIndex = nil
+					record(o.T, o.IP, "hit", inst, "AReturnHit")
+				case m := <-panics:
+					vp.AfterByIndex = nil
+					monitor("op %d: lookup %d of %q panicked: %s", i, o.T, o.IP, m)
+					wedged = true
+				case <-time.After(10 * time.Second):
+					monitor("op %d: lookup %d of %q neither returned nor reached the index within 10s", i, o.T, o.IP)
+					wedged = true
+				}
+			case "finish":
+				if _, ok := pend[o.T]; ok {
+					finish(i, o.T)
+				}
+			default:
+				fmt.Fprintln(os.Stderr, "bad op kind in stream async:", o.Kind)
+				os.Exit(2)
+			}
+		})
+		if msg != "" {
+			monitor("op %d (%s): panic: %s", i, o.Kind, msg)
+			break
+		}
+	}
+	if !wedged {
+		ts := make([]int, 0, len(pend))
+		for t := range pend {
+			ts = append(ts, t)
+		}
+		sort.Ints(ts)
+		for _, t := range ts {
+			if !wedged {
+				finish(len(in.Ops), t)
+			}
+		}
+	}
+
+	c.Obs = map[string]interface{}{"answers": answers}
+	c.Coq = hlib.App("KC", coqTable(labRe, labKeys), coqTable(annRe, annKeys), "[]", hlib.List(aevs))
+	shape := "serial"
+	if overlap {
+		shape = "overlap"
+	}
+	if stale {
+		shape = "stale-transient"
+	}
+	if settledStale {
+		shape = "stale-settled"
+	}
+	c.Class = "async/" + shape
+	c.Nontrivial = overlap && nonNil > 0
+	return c
+}
+
+// a schedule from a history of stream unique: deliveries are split into their two halves and
+// lookups into begin / finish, the second halves are delayed at random
+func genAsync(r *hlib.Rand, tier string) input {
+	base := genCase(r, "unique", tier)
+	in := input{LabRe: base.LabRe, AnnRe: base.AnnRe, Stream: "async"}
+	queued, nextT := 0, 0
+	var open []int
+	handle := func() {
+		if queued > 0 {
+			in.Ops = append(in.Ops, op{Kind: "handle"})
+			queued--
+		}
+	}
+	finishOne := func() {
+		if len(open) > 0 {
+			k := r.Intn(len(open))
+			in.Ops = append(in.Ops, op{Kind: "finish", T: open[k]})
+			open = append(open[:k], open[k+1:]...)
+		}
+	}
+	lazy := r.Intn(3) // 0: mostly prompt second halves ... 2: mostly delayed
+	for _, o := range base.Ops {
+		switch o.Kind {
+		case "add", "update", "delete":
+			in.Ops = append(in.Ops, op{Kind: "ix-" + o.Kind, Pod: o.Pod, Old: o.Old, Tomb: o.Tomb})
+			queued++
+			if !r.Chance(lazy, 3) {
+				for queued > 0 {
+					handle()
+				}
+			}
+		default:
+			t := nextT
+			nextT++
+			in.Ops = append(in.Ops, op{Kind: "begin", T: t, IP: o.IP})
+			open = append(open, t) // a finish of a lookup that was a hit is skipped by the runner
+			if !r.Chance(lazy+1, 4) {
+				in.Ops = append(in.Ops, op{Kind: "finish", T: t})
+				open = open[:len(open)-1]
+			}
+		}
+		switch r.Intn(6) {
+		case 0:
+			handle()
+		case 1:
+			finishOne()
+		}
+		if len(open) > 3 {
+			finishOne()
+		}
+	}
+	for queued > 0 {
+		handle()
+	}
+	for len(open) > 0 {
+		finishOne()
+	}
+	// what every IP answers once everything has settled
+	for _, ip := range append(append([]string{}, ipPool...), nodeIP) {
+		in.Ops = append(in.Ops, op{Kind: "begin", T: nextT, IP: ip}, op{Kind: "finish", T: nextT})
+		nextT++
+	}
+	return in
 }
 
 // ------------------------------------------------------------------------------------------
@@ -687,8 +984,15 @@ func main() {
 			case 9:
 				stream = "offcontract"
 			}
+			if i%8 == 3 {
+				stream = "async"
+			}
 			if s := a.Extra["stream"]; s != "" {
 				stream = s
+			}
+			if stream == "async" {
+				em.Emit(runCase(genAsync(r.Fork(), a.Tier)))
+				continue
 			}
 			em.Emit(runCase(genCase(r.Fork(), stream, a.Tier)))
 		}
